@@ -712,6 +712,26 @@ func (c *Ctx) c15Protocol() {
 						r.Bad("R15.3", name, "drop-before-processing", c.Pos(ev.Pos), "a label's cut list is dropped before its keys were processed", shortTrace(p))
 					}
 				}
+				// … and outside the loop over the label's keys: dropped after the first key, the rest of the label is no longer
+				// put back when a later key fails
+				enclosing := 0
+				for _, g := range groups {
+					hasDrop, hasDelete := false, false
+					for _, e2 := range g.events {
+						if e2 == ev {
+							hasDrop = true
+						}
+						if e2.Kind == pw.EvCall && e2.Role == "DeleterDelete" {
+							hasDelete = true
+						}
+					}
+					if hasDrop && hasDelete {
+						enclosing++
+					}
+				}
+				if enclosing >= 2 {
+					r.Bad("R15.3", name, "drop-inside-keys-loop", c.Pos(ev.Pos), "a label's cut list is dropped inside the loop over its keys: once the first key is processed the remaining keys of the label are not put back when one of them fails", shortTrace(p))
+				}
 			}
 		}
 		// R15.3: a key is skipped only when it is known to be deleted already; a key not yet deleted reaches the deleters loop
